@@ -489,12 +489,19 @@ def _discharge(o: Obligation, second=False, want_model=True):
         rec['second'] = {'backend': be, 'status': st, 'time_s': round(time.time() - t1, 4)}
         return rec
     # unknown on the fast attempt
+    st = st2 = None
+    if 'forall' in text and 'String' in text:
+        # quantified facts over strings (sequences of strings): cvc5 decides these in seconds where both z3 versions time out
+        st2 = run_cli([CVC5, '--strings-exp', f'--tlimit={CVC5_TIMEOUT_MS}'], text, CVC5_TIMEOUT_MS / 1000)
+        if st2 == 'unsat':
+            return {'status': 'unsat', 'backend': 'cvc5-1.0.3', 'time_s': round(time.time() - t0, 4), 'model': None}
     st = run_cli([Z3OLD, f'-T:{Z3_TIMEOUT_MS // 1000}'], text, Z3_TIMEOUT_MS / 1000)
     if st == 'unsat':
         return {'status': 'unsat', 'backend': 'z3-4.8.12', 'time_s': round(time.time() - t0, 4), 'model': None}
-    st2 = run_cli([CVC5, '--strings-exp', f'--tlimit={CVC5_TIMEOUT_MS}'], text, CVC5_TIMEOUT_MS / 1000)
-    if st2 == 'unsat':
-        return {'status': 'unsat', 'backend': 'cvc5-1.0.3', 'time_s': round(time.time() - t0, 4), 'model': None}
+    if st2 is None:
+        st2 = run_cli([CVC5, '--strings-exp', f'--tlimit={CVC5_TIMEOUT_MS}'], text, CVC5_TIMEOUT_MS / 1000)
+        if st2 == 'unsat':
+            return {'status': 'unsat', 'backend': 'cvc5-1.0.3', 'time_s': round(time.time() - t0, 4), 'model': None}
     s, r = _z3api(o, 3 * Z3_TIMEOUT_MS)
     rec = {'status': str(r), 'backend': 'z3-' + z3.get_version_string(), 'time_s': round(time.time() - t0, 4), 'model': None}
     if r == z3.sat:
